@@ -337,7 +337,40 @@ def rule_reach(program, ctx):
                 ctx.bad(finding_at(P, rid, c, f"events are deleted from {q}, outside the audited delete sites"))
 
 
+def rule_served(program, ctx, prop=P, rid="C08.served"):
+    ctx.rule(
+        rid,
+        "ViewEventResource.on_get: the event that is served was read from storage.get_event(event_id) during this request (every binding of the served "
+        "variable is that await) - a process-local cache keeps serving an event after its author's deletion was accepted",
+        floor=1,
+    )
+    fn = program.func("nostr_relay.web:ViewEventResource.on_get")
+    served = None
+    for s in walk_no_nested(fn):
+        if isinstance(s, ast.Assign) and any(dotted(t) in ("resp.media", "resp.text", "resp.data") for t in s.targets):
+            names = [n.id for n in ast.walk(s.value) if isinstance(n, ast.Name) and n.id not in ("resp", "req", "self")]
+            served = (s, names[0] if names else None)
+    if served is None or served[1] is None:
+        ctx.bad(finding_func(prop, rid, fn, "/e/<id> no longer publishes an event read in this request", text="def on_get(...) :: served"))
+        return
+    st, var = served
+    binds = stores_of(fn, var)
+    okb = bool(binds)
+    for b in binds:
+        v = strip_await(b.value) if isinstance(b, ast.Assign) else None
+        if not (isinstance(v, ast.Call) and call_name(v) == "self.storage.get_event" and v.args and dotted(v.args[0]) == "event_id"):
+            okb = False
+            ctx.bad(finding_at(prop, rid, b, f"the served event can come from `{norm(b, 60)}` instead of storage.get_event(event_id): a stale copy outlives the event's deletion"))
+    if okb:
+        ctx.ok(rid, st, f"served `{var}` is always `await self.storage.get_event(event_id)` of this request")
+    ci = program.cls("nostr_relay.web:ViewEventResource")
+    for s in ci.node.body:
+        if isinstance(s, ast.Assign) and isinstance(s.value, (ast.Dict, ast.Call)) and "cache" in ast.unparse(s).lower():
+            ctx.bad(finding_at(prop, rid, s, "ViewEventResource keeps a class-level cache of events"))
+
+
 def run(program, ctx):
+    rule_served(program, ctx)
     rule_sql(program, ctx)
     rule_kv(program, ctx)
     rule_reach(program, ctx)
